@@ -139,6 +139,14 @@ def directed():
         elif how == 'default+exe':
             sc.append(dict(B, kind='default', name='t5', deps=['t3', 't2']))
         out.append(sc)
+    # a symbolic-link copy with a further dependency that is built after
+    # the file the link points to (recorded finding)
+    out.append([
+        dict(B, kind='exe', name='t1', srcs=[F('s1')]),
+        dict(B, kind='step', name='t2', ins=[F('d1')], xdeps=['t1']),
+        dict(B, kind='copy', name='t3', ins=[T('t1')], mode='symlink',
+             xdeps=['t2']),
+        dict(B, kind='default', name='t4', deps=['t3'])])
     # always-outdated steps with one and with two outputs, and their consumers
     for nouts in (1, 2):
         out.append([
@@ -169,6 +177,15 @@ def main(argv):
     ck.evaluations = sum(1 for h in hists for e in h if e['ev'] == 'Build')
     ck.states += st['distinct']
     ck.transitions += st['generated']
+    softs = sorted({(x[0], x[1], x[2], json.dumps(x[3])) for x in st['soft']})
+    for tid, clause, line, what in softs:
+        decls, backend = jobs[tid - 1]
+        ck.report('C03:%s:%s:symlink-copy-with-extra-deps' % (clause,
+                                                              backend),
+                  '%s (%s) at event %d: %s; script:\n%s' % (
+                      clause, backend, line, what, sg.bfg_text(decls)),
+                  {'decls': decls, 'backend': backend,
+                   'build.bfg': sg.bfg_text(decls)})
     for tid, info in sorted(rej.items()):
         decls, backend = jobs[tid - 1]
         h = hists[tid - 1]
